@@ -114,6 +114,36 @@ theorem C25_fails_asis_propose_scan (c : CmdCfg)
   subst hc
   refine ⟨by decide, [0x6e], by decide, by decide⟩
 
+/-- **Scan trimming, batched commands.**  A command may carry several sub-requests; whatever
+the applier produced for each of them, every scan result that leaves the store through either
+public path is exactly the in-range part of what was produced, and the other sub-responses are
+untouched — for every batch, every position, every mix of empty and non-empty results. -/
+theorem C25_trim_batch (c : CmdCfg) (hc : c.BatchGood) (p : Path) (m : Meta)
+    (resps : List (Option (List Bytes))) :
+    scanOutBatch c p m resps =
+      resps.map (Option.map (fun ks => ks.filter (fun k => decide (k = [] ∨ inRange m k)))) := by
+  obtain ⟨⟨hv, ht⟩, he⟩ := hc
+  have hb : trimBatch c m resps =
+      resps.map (Option.map (fun ks => ks.filter (fun k => decide (k = [] ∨ inRange m k)))) := by
+    induction resps with
+    | nil => rfl
+    | cons r rest ih =>
+      cases r with
+      | none => simp [trimBatch, ih]
+      | some ks => simp [trimBatch, he, ih, C25_trim_exact c hv m ks]
+  cases p <;> simp [scanOutBatch, ht, hb]
+
+/-- (seeded change C25-m2r2) the trimming loop ends at the first empty scan result: a later scan
+result of the same command leaves with an out-of-range key -/
+theorem C25_fails_trim_stops (c : CmdCfg) (hc : c = { CmdCfg.good with trimEach := false }) :
+    ∃ ks, some ks ∈ scanOutBatch c .read wMeta [some [], some [[0x63], [0x6e]]] ∧
+      ∃ k ∈ ks, ¬ (k = [] ∨ inRange wMeta k) := by
+  subst hc
+  exact ⟨[[0x63], [0x6e]], by decide, [0x6e], by decide, by decide⟩
+
+example : scanOutBatch CmdCfg.good .propose wMeta [some [], none, some [[0x63], [0x6e]]] =
+    [some [], none, some [[0x63]]] := by decide
+
 example : CmdCfg.good.Good := by decide
 example : validate CmdCfg.good wMeta (some wMeta.epoch)
     [⟨.prewrite, [[0x62], [0x6c, 0xff]]⟩, ⟨.get, [[]]⟩] = true := by decide
